@@ -250,8 +250,16 @@ def run(rep, tier):
             clause_a(facts, rep, tag)
             clause_b(facts, rep, tag)
             clause_c(facts, rep, tag)
+        # the lookup map is only a faithful index if its comparator is a strict weak order: Less() must order keys
+        # like memcmp on every path, i.e. the three-way compare it calls is unsigned left-minus-right (shared with C14)
+        from . import c14
+        if cfg == 'K1':
+            c14.clause_e(facts, rep, ('::avx2::',))
+            n = c14.clause_c(facts, rep)
+        elif cfg == 'K3':
+            c14.clause_e(facts, rep, ('::sse::',), min_returns=1)
     rep.trust('clang 14 front end', 'std::multimap emplace/erase semantics')
     rep.assumptions += [
-        'decides capacity-before-store, strictly increasing growth, map maintenance pairing (incl. key ownership) and null map of fresh blocks, for both allocator kinds',
+        'decides capacity-before-store, strictly increasing growth, map maintenance pairing (incl. key ownership) and null map of fresh blocks, for both allocator kinds; the map comparator (min-length compare, tie on length) uses an unsigned memcmp-like three-way compare on every path',
         'does NOT decide equality with the vector model, the values of repaired map indices, iterator results (model-based behaviour)',
     ]
